@@ -1,11 +1,193 @@
+(* C02 — property theorems only.  "unpack" is the executable model of C01/Model.v that the correspondences
+   C01/Corr.v and C02/Corr.v run against the real packers; E is an ARBITRARY adversarial envelope.
+
+   Adversary: [adv k] = the adversary holds private key k (its own keys, ephemeral keys it generates, keys of
+   colluding parties such as co-recipients).  [hs] = the honest envelopes in circulation.
+   [wf_jwe adv hs E] / [wf_leg adv hs E]: every encrypted-key term of E is taken from an honest envelope (any entry
+   of any of them), or is no key wrap at all, or is a wrap under a key-encryption key the adversary can compute
+   (every DH secret in its KDF input involves an adversary key).  EVERYTHING ELSE of E is unconstrained:
+   protected header (skid, alg, enc, kid, epk, apu, apv, serialization), per-recipient headers, number and order
+   of recipients, iv, ciphertext, tag, aad — in particular every mutation, truncation, splice and
+   re-serialization of C02's quantifier, and envelopes built with the public crypto API. *)
 From Coq Require Import List NArith Bool.
 Import ListNotations.
-From VF Require Import C02.Model.
+From VF Require Import C01.Model C01.Proofs C02.Model C02.Proofs.
 Local Open Scope N_scope.
 
-(* placeholder obligation while the check is being built; replaced by the integrity theorems *)
-Theorem es_forgery_rejected :
-  unpack Fixed JweAuth [2] (WJwe (adv_es_jwe (mkcfg JweAnon P256 A256CBC512 DidKey) (Some (KDidKey 1)) 888 [2] (mkrnd 7 8 9)))
-  = Err EInvalid.
-Proof. vm_compute. reflexivity. Qed.
-Print Assumptions es_forgery_rejected.
+(* FULL STATEMENT for the JWE authcrypt packer (payload and sender).  Whatever envelope the adversary presents:
+   if a party none of whose keys the adversary holds unpacks it with FromKey = s, then either s is a key of
+   the adversary itself (it sent a message of its own, under its own name) or there is an honest authcrypt
+   envelope with exactly that payload, exactly that sender, addressed to a key the party holds.  No hypothesis on
+   the ciphertext: a co-recipient who knows the content key cannot re-attribute or alter either (the tag is in
+   the ECDH-1PU KDF). *)
+Theorem integrity_jwe_authcrypt : forall adv hs party E m s to,
+  wf_jwe adv hs E ->
+  (forall k, In k party -> adv k = false) ->
+  (forall h k, In h hs -> In k party -> rn_eph (h_rnd h) <> k) ->
+  unpack Fixed JweAuth party (WJwe E) = Ok (m, Some s, to) ->
+  adv s = true \/
+  exists h, In h hs /\ packer_of (h_cfg h) = JweAuth /\ m = Bytes (h_payload h) /\ s = h_sender h /\
+            exists k, In k party /\ In k (h_rcpts h).
+Proof. intros adv hs party E m s to. exact (sender_auth_jwe_lemma adv hs party E m s to). Qed.
+Print Assumptions integrity_jwe_authcrypt.
+
+(* the same through the packager's dispatch (which chooses authcrypt iff a skid header is present) *)
+Theorem integrity_jwe_packager : forall adv hs party E m s to,
+  wf_jwe adv hs E ->
+  (forall k, In k party -> adv k = false) ->
+  (forall h k, In h hs -> In k party -> rn_eph (h_rnd h) <> k) ->
+  unpack_pkgr Fixed party (WJwe E) = Ok (m, Some s, to) ->
+  adv s = true \/
+  exists h, In h hs /\ packer_of (h_cfg h) = JweAuth /\ m = Bytes (h_payload h) /\ s = h_sender h /\
+            exists k, In k party /\ In k (h_rcpts h).
+Proof.
+  intros adv hs party E m s to Hwf Hp He. unfold unpack_pkgr, dispatch.
+  destruct (j_prot E) as [prot|]; [|discriminate]. destruct (p_skid prot).
+  - exact (sender_auth_jwe_lemma adv hs party E m s to Hwf Hp He).
+  - cbn [unpack]. intros H. apply unpack_jwe_anon_from in H. discriminate.
+Qed.
+Print Assumptions integrity_jwe_packager.
+
+(* "an envelope produced with sender key A can never be unpacked as coming from sender key B" *)
+Theorem no_misattribution : forall adv hs party E m s to,
+  wf_jwe adv hs E ->
+  (forall k, In k party -> adv k = false) ->
+  (forall h k, In h hs -> In k party -> rn_eph (h_rnd h) <> k) ->
+  adv s = false ->
+  unpack Fixed JweAuth party (WJwe E) = Ok (m, Some s, to) ->
+  ~ (forall h, In h hs -> m = Bytes (h_payload h) -> h_sender h <> s).
+Proof.
+  intros adv hs party E m s to Hwf Hp He Hs Hu Hno.
+  destruct (sender_auth_jwe_lemma adv hs party E m s to Hwf Hp He Hu) as [Ha|[h [Hin [_ [Hm [Hse _]]]]]].
+  - congruence.
+  - apply (Hno h Hin Hm). symmetry; exact Hse.
+Qed.
+Print Assumptions no_misattribution.
+
+(* The recipient key.  FULL statement: ToKey is a recipient key of that honest envelope — REFUTED by the faithful
+   model (known finding tokey-is-another-own-key): ToKey is the first kid of E's recipients array that the party
+   holds, not the key that unwrapped. *)
+Definition tokey_h : henv := mkhenv (mkcfg JweAuth P256 A256CBC512 DidKey) [1] 11 1 [2; 3] (mkrnd 100 101 102).
+Definition tokey_E (w : wire) : jwe :=
+  set_recs (mkrcp (Some (mkrhdr (Some (KDidKey 9)) None None None None)) (Junk 9) :: j_recs (J w)) (J w).
+Theorem tokey_exact_refuted :
+  exists w, hpack tokey_h = Ok w /\
+    wf_jwe (fun _ => false) [tokey_h] (tokey_E w) /\
+    unpack Fixed JweAuth [2; 9] (WJwe (tokey_E w)) = Ok (Bytes 11, Some 1, 9) /\ ~ In 9 (h_rcpts tokey_h).
+Proof.
+  eexists. split; [vm_compute; reflexivity|]. split; [|split; [vm_compute; reflexivity|vm_compute; intuition discriminate]].
+  unfold wf_jwe. cbn [tokey_E set_recs j_recs J map].
+  apply Forall_cons; [|apply Forall_cons; [|apply Forall_cons; [|apply Forall_nil]]].
+  - right. right. left. reflexivity.
+  - left. exists tokey_h. eexists. split; [left; reflexivity|]. split; [vm_compute; reflexivity|]. vm_compute. tauto.
+  - left. exists tokey_h. eexists. split; [left; reflexivity|]. split; [vm_compute; reflexivity|]. vm_compute. tauto.
+Qed.
+Print Assumptions tokey_exact_refuted.
+
+(* ... and PARTIAL: it holds for a party that holds a single key *)
+Theorem tokey_exact_partial : forall adv hs k0 E m s to,
+  wf_jwe adv hs E ->
+  adv k0 = false ->
+  (forall h, In h hs -> rn_eph (h_rnd h) <> k0) ->
+  unpack Fixed JweAuth [k0] (WJwe E) = Ok (m, Some s, to) ->
+  adv s = true \/
+  exists h, In h hs /\ m = Bytes (h_payload h) /\ s = h_sender h /\ In to (h_rcpts h).
+Proof.
+  intros adv hs k0 E m s to Hwf Ha He Hu.
+  assert (Hto : In to [k0]) by (eapply unpack_jwe_to; exact Hu).
+  destruct (sender_auth_jwe_lemma adv hs [k0] E m s to Hwf) as [H|[h [Hin [_ [Hm [Hs [k [Hk Hr]]]]]]]]; try assumption.
+  - intros k [<-|[]]. assumption.
+  - intros h k Hin [<-|[]]. apply He; assumption.
+  - left; assumption.
+  - right. exists h. repeat split; try assumption. destruct Hto as [<-|[]]. destruct Hk as [<-|[]]. assumption.
+Qed.
+Print Assumptions tokey_exact_partial.
+
+(* Outsider integrity for EVERY JWE packer (anoncrypt included; anyone may author an anoncrypt envelope, so
+   the statement is about envelopes that re-use an honest wrapped key).  Hypothesis [ct_ok]: a ciphertext under
+   an honest content key is an honest envelope's ciphertext — the adversary is not a recipient (it does not know
+   honest content keys).  Then an accepted envelope either contains a key wrap the adversary made itself (its
+   own envelope) or yields an honest payload together with that envelope's authenticated data (protected
+   header and aad, hence enc, skid, kid ... are that envelope's). *)
+Theorem integrity_outsider_jwe : forall adv hs auth party E m fr to,
+  wf_jwe adv hs E -> ct_ok hs (j_ct E) ->
+  unpack_jwe Fixed auth party E = Ok (m, fr, to) ->
+  (exists h' w', In h' hs /\ hpack h' = Ok w' /\ m = Bytes (h_payload h') /\ aad_of (WJwe E) = aad_of w')
+  \/ adv_made adv E.
+Proof. exact integrity_outsider_jwe_lemma. Qed.
+Print Assumptions integrity_outsider_jwe.
+
+(* the symmetric layer of all four packers: whoever decrypts with an honest content key gets an honest payload
+   and the honest authenticated data *)
+Theorem content_integrity : forall hs h cek aad iv ct tag m,
+  In h hs -> cek = cek_of (h_rnd h) -> ct_ok hs ct -> c_dec cek aad iv ct tag = Some m ->
+  exists h' w', In h' hs /\ hpack h' = Ok w' /\ m = Bytes (h_payload h') /\ aad = aad_of w'.
+Proof. exact content_integrity_lemma. Qed.
+Print Assumptions content_integrity.
+
+(* Legacy (RFC 0019) authcrypt.  FULL statement (as for JWE authcrypt, no hypothesis on the ciphertext) is
+   REFUTED by the faithful model: a co-recipient re-encrypts another payload under the content key (known
+   finding legacy-authcrypt-corecipient-forgery; adv 3 = the co-recipient colludes). *)
+Definition leg_h : henv := mkhenv (mkcfg LegAuth Ed25519 XC20P RawKey) [1] 11 1 [2; 3] (mkrnd 100 101 102).
+Theorem integrity_legacy_authcrypt_refuted :
+  exists w, hpack leg_h = Ok w /\
+    let E := reenc_leg (cek_of (h_rnd leg_h)) 888 (L w) in
+    wf_leg (fun k => k =? 3) [leg_h] E /\
+    unpack Fixed LegAuth [2] (WLeg E) = Ok (Bytes 888, Some 1, 2).
+Proof.
+  eexists. split; [vm_compute; reflexivity|]. split; [|vm_compute; reflexivity].
+  unfold wf_leg. cbn. apply Forall_cons; [|apply Forall_cons; [|apply Forall_nil]].
+  - right. left. exists leg_h. eexists. eexists. split; [left; reflexivity|]. split; [vm_compute; reflexivity|].
+    split; [reflexivity|]. vm_compute. tauto.
+  - right. left. exists leg_h. eexists. eexists. split; [left; reflexivity|]. split; [vm_compute; reflexivity|].
+    split; [reflexivity|]. vm_compute. tauto.
+Qed.
+Print Assumptions integrity_legacy_authcrypt_refuted.
+
+(* PARTIAL (guard: [ct_ok], the adversary is not a recipient): payload, sender and recipient are an honest
+   envelope's, or the sender is the adversary itself *)
+Theorem integrity_legacy_authcrypt_partial : forall adv hs party E m s k,
+  wf_leg adv hs E -> ct_ok hs (le_ct E) -> (forall k, In k party -> adv k = false) ->
+  unpack Fixed LegAuth party (WLeg E) = Ok (m, Some s, k) ->
+  adv s = true \/
+  exists h, In h hs /\ packer_of (h_cfg h) = LegAuth /\ m = Bytes (h_payload h) /\ s = h_sender h /\
+            In k (h_rcpts h) /\ In k party.
+Proof. intros adv hs party E m s k. exact (legacy_auth_lemma adv hs party E m s k). Qed.
+Print Assumptions integrity_legacy_authcrypt_partial.
+
+(* HISTORICAL REFUTATION (before fix: 234874c).  The code as found unwrapped ECDH-ES keys although a sender key
+   id was present: an outsider holding only the ephemeral key 200000 makes an envelope that the victim [2]
+   unpacks as coming from the honest key 1.  The repaired decrypter rejects it. *)
+Definition forged_E : jwe := adv_es_jwe (mkcfg JweAnon P256 A256CBC512 DidKey) (Some (KDidKey 1)) 888 [2] (mkrnd 200000 200050 200051).
+Theorem sender_auth_asis_refuted :
+  wf_jwe (fun k => 200000 <=? k) [] forged_E /\
+  unpack AsIs JweAuth [2] (WJwe forged_E) = Ok (Bytes 888, Some 1, 2) /\
+  unpack_pkgr AsIs [2] (WJwe forged_E) = Ok (Bytes 888, Some 1, 2) /\
+  unpack Fixed JweAuth [2] (WJwe forged_E) = Err EInvalid.
+Proof.
+  split; [|repeat split; vm_compute; reflexivity].
+  unfold wf_jwe. cbn. apply Forall_cons; [|apply Forall_nil]. right. right. right. eexists. eexists.
+  split; [reflexivity|]. vm_compute. reflexivity.
+Qed.
+Print Assumptions sender_auth_asis_refuted.
+
+(* non-vacuity: adversarial envelopes that satisfy the hypotheses and ARE accepted / rejected as the theorems say:
+   (1) the honest envelope with its recipients rotated and one entry's key replaced by junk: accepted, honest triple;
+   (2) the content of e2 spliced under the recipients of e1: rejected; (3) the co-recipient's re-encryption: rejected
+   by the JWE authcrypt packer *)
+Definition nv_h1 : henv := mkhenv (mkcfg JweAuth X25519 XC20P DidDoc) [1] 11 1 [2; 3] (mkrnd 100 101 102).
+Definition nv_h2 : henv := mkhenv (mkcfg JweAuth X25519 XC20P DidDoc) [1] 22 1 [2; 3] (mkrnd 200 201 202).
+Example integrity_nonvacuous :
+  exists w1 w2, hpack nv_h1 = Ok w1 /\ hpack nv_h2 = Ok w2 /\
+    let E1 := set_recs [mkrcp (r_hdr (R w1 1)) (Junk 5); R w1 0] (J w1) in
+    wf_jwe (fun k => k =? 3) [nv_h1; nv_h2] E1 /\
+    unpack Fixed JweAuth [2] (WJwe E1) = Ok (Bytes 11, Some 1, 2) /\
+    unpack Fixed JweAuth [2] (WJwe (set_recs (j_recs (J w1)) (J w2))) = Err ERejected /\
+    unpack Fixed JweAuth [2] (WJwe (reenc_jwe (cek_of (h_rnd nv_h1)) 888 (J w1))) = Err ERejected.
+Proof.
+  eexists. eexists. split; [vm_compute; reflexivity|]. split; [vm_compute; reflexivity|].
+  split; [|repeat split; vm_compute; reflexivity].
+  unfold wf_jwe. cbn [set_recs j_recs]. apply Forall_cons; [|apply Forall_cons; [|apply Forall_nil]].
+  - right. right. left. reflexivity.
+  - left. exists nv_h1. eexists. split; [left; reflexivity|]. split; [vm_compute; reflexivity|]. vm_compute. tauto.
+Qed.
